@@ -323,7 +323,11 @@ package core
 
 //@ func WriteHeader
 //@   keeps big
+// Ghost hdrwr_canon: the number index when the head-header pointer was last written.
+//@ ghost hdrwr_canon (Array (_ BitVec 64) (Array (_ BitVec 64) (_ BitVec 8)))
 //@ func WriteHeadHeaderHash
+//@   axiom hdrwr_canon == old(canon)
+//@   assigns hdrwr_canon, inferred
 //@   keeps big
 
 //@ func HeaderChain.WriteHeader
@@ -339,6 +343,8 @@ package core
 //@   ensures[C02] @canon_notlighter err == nil && status == CanonStatTy ==> ext >= loc
 //@   ensures[C03] @canonhead err == nil && status == CanonStatTy ==> hc.currentHeaderHash == hdrhash(header)
 //@   ensures[C03] @canonindex err == nil && status == CanonStatTy ==> canon[L(old(big(header.Number)))] == hdrhash(header)
+//@   ensures[C03,C04] @indexfirst err == nil && status == CanonStatTy ==> hdrwr_canon[L(old(big(header.Number)))] == hdrhash(header)
+//@   ensures[C03,C04] @indexfirst_above err == nil && status == CanonStatTy ==> forall n uint64 :: n > L(old(big(header.Number))) ==> hdrwr_canon[n] == zerohash
 //@   ensures[C03] @above err == nil && status == CanonStatTy ==> forall n uint64 :: n > L(old(big(header.Number))) ==> canon[n] == zerohash
 //@   ensures[C03] @sideindex err == nil && status == SideStatTy ==> canon == old(canon)
 //@   loop 1 invariant[C03] i > number && (forall n uint64 :: number < n && n < i ==> canon[n] == zerohash) && (forall n uint64 :: n >= i ==> canon[n] == old(canon[n]))
